@@ -29,6 +29,7 @@ def sh(cmd, cwd=None, env=None, timeout=3600):
 def main():
     args = [a for a in sys.argv[1:] if not a.startswith('--')]
     prop, name, patch, demo = args[:4]
+    orig_demo = demo
     note = args[4] if len(args) > 4 else None
     tier = 'quick'
     if '--thorough' in sys.argv:
@@ -46,6 +47,11 @@ def main():
             env = dict(os.environ, PYTHONPATH=wt)
             env.pop('SQLOBJECT_VERIF', None)
             demo_src = open(demo).read()
+            # a demo may name (assert on) its author's worktree: run a copy that names this one
+            orig_wt = os.path.dirname(os.path.dirname(os.path.abspath(patch)))
+            demo_run = os.path.join(wt, '_demo_under_test.py')
+            open(demo_run, 'w').write(demo_src.replace(orig_wt, wt))
+            demo = demo_run
             rc0, out0 = sh('/venv/bin/python %s' % os.path.abspath(demo), cwd=wt, env=env)
             rca, outa = sh('git apply %s' % os.path.abspath(patch), cwd=wt)
             assert rca == 0, 'patch does not apply: ' + outa
@@ -71,7 +77,7 @@ def main():
             print('not kept')
             return 1
     shutil.copy(patch, os.path.join(outdir, 'patch.diff'))
-    shutil.copy(demo, os.path.join(outdir, 'demo.py'))
+    shutil.copy(orig_demo, os.path.join(outdir, 'demo.py'))
     if note and os.path.exists(note):
         meta['needs_to_manifest'] = open(note).read()
     # run the check against the patched tree: /repo itself (--inplace: git apply, check, git checkout -- .)
